@@ -3,6 +3,7 @@ package main
 import (
 	"context"
 	"fmt"
+	"k3l.io/go-eigentrust/pkg/sparse"
 	"math"
 )
 
@@ -44,6 +45,36 @@ func genC05(r *Rng, tier string) []*Case {
 				}
 			}
 		}
+	}
+	// epsilon equal, bit for bit, to the delta observed at a scheduled check (the criterion is "<="): the run must
+	// stop at that check.  The delta is recomputed here with the library's own SubVec/Norm2 from two bounded runs.
+	eqs := 8
+	if tier != "quick" {
+		eqs = 80
+	}
+	for g := 0; g < eqs; g++ {
+		n := 2 + r.Intn(6)
+		c, p, _ := randGraph(r, n)
+		cc, pc, err := canonInputs(c, p)
+		if err != nil {
+			continue
+		}
+		a := []float64{0.5, 0.3, 0.15}[r.Intn(3)]
+		k := 2 + r.Intn(5)
+		prev := runCompute(context.Background(), &ComputeIn{C: cc, P: pc, A: JFloat(a), E: 1e-300, Max: ip(k - 1), Fuel: 400, WatchdogMs: 20000})
+		cur := runCompute(context.Background(), &ComputeIn{C: cc, P: pc, A: JFloat(a), E: 1e-300, Max: ip(k), Fuel: 400, WatchdogMs: 20000})
+		if prev.Kind != "done" || cur.Kind != "done" || prev.T == nil || cur.T == nil {
+			continue
+		}
+		var td sparse.Vector
+		if td.SubVec(cur.T.sparse(), prev.T.sparse()) != nil {
+			continue
+		}
+		d := td.Norm2()
+		if !(d > 0) {
+			continue
+		}
+		cs = append(cs, mk("Compute", ComputeIn{C: cc, P: pc, A: JFloat(a), E: JFloat(d), Fuel: 400, WatchdogMs: 20000}))
 	}
 	// validation: every invalid parameter value, one at a time and combined
 	n := 4
